@@ -128,6 +128,9 @@ type IdP struct {
 	OnToken func(call *TokenCall) string
 	// OnJWKS is called at JWKS-endpoint entry; returning false makes it answer 500.
 	OnJWKS func() bool
+	// JWKSHeaders are added to every JWKS answer (cache directives)
+	JWKSHeaders map[string]string
+	jwksTimes   []time.Time
 	// DiscFailFirst makes the first k discovery requests fail with 503 after DiscDelay.
 	DiscFailFirst int64
 	DiscDelay     time.Duration
@@ -282,6 +285,10 @@ func (p *IdP) ServeHTTP(w http.ResponseWriter, r *http.Request) {
 		body := JWKS(p.Keys)
 		if p.JWKSBody != nil {
 			body = *p.JWKSBody
+		}
+		p.jwksTimes = append(p.jwksTimes, time.Now())
+		for k, v := range p.JWKSHeaders {
+			w.Header().Set(k, v)
 		}
 		p.mu.Unlock()
 		w.Header().Set("Content-Type", "application/json")
@@ -572,6 +579,29 @@ func (p *IdP) CurrentRefresh(rt string) (string, bool) {
 		return "", false
 	}
 	return l.Current, true
+}
+
+// WithdrawSigningKey replaces the signing key by key i of the pool under a new kid and publishes ONLY the new
+// key; it returns the withdrawn key and the instant of the change.
+func (p *IdP) WithdrawSigningKey(i int) (*Key, time.Time) {
+	p.mu.Lock()
+	defer p.mu.Unlock()
+	old := p.SignKey
+	p.SignKey = Keys()[i%4].With(fmt.Sprintf("rotated-%d", i), "")
+	p.Keys = []*Key{p.SignKey}
+	return old, time.Now()
+}
+
+// JWKSFetchedAfter reports whether the JWKS endpoint has answered a request that arrived after t.
+func (p *IdP) JWKSFetchedAfter(t time.Time) bool {
+	p.mu.Lock()
+	defer p.mu.Unlock()
+	for _, x := range p.jwksTimes {
+		if x.After(t) {
+			return true
+		}
+	}
+	return false
 }
 
 // PublishExtraKey adds (or replaces) an additional published key; the signing key stays published.
